@@ -14,6 +14,7 @@ EXPLANATION = (
     "bootstrap-cache insert and the listener's peer registration are dominated by the limiter's success; (4) KEY — the bucket "
     "consumed is the map entry of the key passed."
     ' (5) every write of the token budget in try_consume is the time-earned refill, the cap at burst or the consumption of one token, and the bucket is never replaced as a whole; helpers of try_consume / new / check_join_allowed are spliced in.'
+    ' ADMIT-GATE also decides refill-advances-clock: a tokens write computed from `now - self.<clock>` is followed on every path to a return by a write of that clock field (a denied attempt must not keep the credit while the clock stands still).'
 )
 NOT_DECIDED = "refill arithmetic against measured time, float rounding, LRU eviction of a bucket resetting its budget, concurrency of the global mutex"
 ASSUMPTIONS = ["parking_lot::RwLock write guard gives mutual exclusion per engine", "Instant is monotone"]
